@@ -5955,6 +5955,12 @@ class CodegenCtx:
             return self._generate_condition_point_body(state)
         result = Outputter()
 
+        # In strict-done mode, the DONE that would've been returned by the transition into this state is returned here instead; whatever
+        # character arrives next is not an error.
+        if state in self.dfa.accepting_states and ProgramData.do(ProgramFlag.STRICT_DONE_TOKEN_GENERATION) and all(x.error_handling for x in state.transitions):
+            result.add(f"return {self.program_name.upper()}_DONE;")
+            return result.value()
+
         # Split transitions into else groups
         try:
             actual_else_transition = next(state.all_transitions_for((DFTransition.Else,)))
